@@ -24,7 +24,7 @@ TIMEOUT = {"quick": 1200, "thorough": 7200}
 
 def generate(tier, seed):
     cases = []
-    ncloud = 600 if tier == "quick" else 4000
+    ncloud = 600 if tier == "quick" else 20000
     for k in range(ncloud):
         cases.append({"kind": "cloud", "seed": "%d:cloud:%d" % (seed, k), "cost": 2})
     reps = 1 if tier == "quick" else 8
@@ -36,10 +36,10 @@ def generate(tier, seed):
         for delta in (-10, 10):
             cases.append({"kind": "cys", "dir": list(d), "delta": delta,
                           "seed": "%d:cys:%s:%d" % (seed, d, delta), "cost": 3})
-    ncys = 12 if tier == "quick" else 400
+    ncys = 12 if tier == "quick" else 2000
     for k in range(ncys):
         cases.append({"kind": "cys", "seed": "%d:cys:%d" % (seed, k), "cost": 3})
-    npose = 8 if tier == "quick" else 96
+    npose = 8 if tier == "quick" else 480
     for k in range(npose):
         cases.append({"kind": "pose", "seed": "%d:pose:%d" % (seed, k), "cost": 60})
     return cases
